@@ -455,6 +455,7 @@ func runC03(p *P, r *R) {
 	c03Sizes(p, r, fr, H, LH)
 	c03Wiring(p, r)
 	c03Guards(p, r, fr)
+	c03Tightness(p, r, fr)
 }
 
 func sym2(s string) string {
@@ -729,4 +730,155 @@ func leadsToErrorReturn(b *ssa.BasicBlock, depth int) bool {
 		}
 	}
 	return false
+}
+
+// descr renders an expression by roles (parameter index, field, layout word, size function) so that
+// the guard table below does not depend on local variable or parameter names.
+func (p *P) descr(v ssa.Value, depth int) string {
+	if depth <= 0 {
+		return "?"
+	}
+	v = stripConv(v)
+	if c, ok := constInt(v); ok {
+		if _, isC := v.(*ssa.Const); isC {
+			return itoa(c)
+		}
+	}
+	switch x := v.(type) {
+	case *ssa.Parameter:
+		for i, prm := range x.Parent().Params {
+			if prm == x {
+				return "p" + itoa(int64(i))
+			}
+		}
+	case *ssa.BinOp:
+		a, b := p.descr(x.X, depth-1), p.descr(x.Y, depth-1)
+		if x.Op == token.ADD && a > b {
+			a, b = b, a // commutative: canonical order
+		}
+		return "(" + a + x.Op.String() + b + ")"
+	case *ssa.Call:
+		if bi, ok := x.Call.Value.(*ssa.Builtin); ok {
+			return bi.Name() + "(" + p.descr(x.Call.Args[0], depth-1) + ")"
+		}
+		if g := p.localCallee(x); g != nil {
+			var as []string
+			for _, a := range x.Call.Args {
+				as = append(as, p.descr(a, depth-1))
+			}
+			return p.fname(g) + "(" + strings.Join(as, ",") + ")"
+		}
+	case *ssa.UnOp:
+		if x.Op == token.MUL {
+			if fa, ok := stripConv(x.X).(*ssa.FieldAddr); ok {
+				return fieldKey(fa)
+			}
+			if ia, w, ok := castOf(x.X); ok {
+				_, k := splitConst(ia.Index)
+				return "word@" + itoa(k) + "/" + itoa(w)
+			}
+			if inner, ok := stripConv(x.X).(*ssa.UnOp); ok && inner.Op == token.MUL {
+				if fa, ok := stripConv(inner.X).(*ssa.FieldAddr); ok {
+					return "*" + fieldKey(fa)
+				}
+			}
+		}
+	}
+	return "?"
+}
+
+// R03.6 guard tightness: the strictness of every mapping-length guard of the layout code is frozen.
+// An over-strict guard (rejecting the exact-fit mapping the creator accepts) or an over-lax one is a
+// one-sided change of the accepted layouts; relations are normalised, so `a > b` vs `b < a` vs
+// `!(a <= b)` are the same entry.
+var guardTable = map[string]string{
+	// function | E (what len(mapping) is compared with)  ->  relation "len REL E" on the accepting edge
+	"createBufferManager|p3":                                  ">",  // mem[offset] is dereferenced
+	"mappingBufferManager|(4+p2)":                             ">",  // mem[start+bmCapOffset] is dereferenced
+	"mappingBufferManager|p2":                                 ">",  // mem[start] is dereferenced
+	"mappingBufferManager|(8+word@4/4)":                       ">=", // header + used length may fill the mapping exactly
+	"createFreeBufferList|(countBufferListMemSize(p0,p1)+p3)": ">=", // the list may end exactly at the end of the mapping
+	"createFreeBufferList|p3":                                 ">=",
+	"createFreeBufferList|countBufferListMemSize(p0,p1)":      ">=",
+	"mappingFreeBufferList|(36+p1)":                           ">=",
+	"mappingFreeBufferList|(countBufferListMemSize(*bufferList.cap,*bufferList.capPerBuffer)+p1)": ">=",
+	"(*bufferManager).readBufferSlice|(20+p1)":                                                    ">",  // a slot header is never the last thing in the mapping
+	"(*bufferManager).readBufferSlice|((20+p1)+word@0/4)":                                         ">=", // the last slot's payload ends exactly at the end of the mapping
+}
+
+func c03Tightness(p *P, r *R, fr freeListRoles) {
+	var fns []*ssa.Function
+	fns = append(fns, fr.creators...)
+	fns = append(fns, fr.mappers...)
+	for _, n := range []string{"createBufferManager", "mappingBufferManager", "(*bufferManager).readBufferSlice"} {
+		if f := p.fn(n); f != nil {
+			fns = append(fns, f)
+		}
+	}
+	guardTightness(p, r, "R03.6", fns, 10)
+}
+
+func guardTightness(p *P, r *R, rule string, fns []*ssa.Function, floor int) {
+	matched := 0
+	for _, f := range fns {
+		fn := p.fname(f)
+		isLenMap := func(v ssa.Value) bool {
+			c, ok := stripConv(v).(*ssa.Call)
+			if !ok {
+				return false
+			}
+			b, ok := c.Call.Value.(*ssa.Builtin)
+			if !ok || b.Name() != "len" {
+				return false
+			}
+			a := c.Call.Args[0]
+			if prm, ok := a.(*ssa.Parameter); ok && isByteSlice(prm.Type()) {
+				return true
+			}
+			return isLoadOf(a, "bufferManager.mem")
+		}
+		for _, b := range f.Blocks {
+			ifi := blockIf(b)
+			if ifi == nil {
+				continue
+			}
+			cv, _ := stripNot(ifi.Cond)
+			bo, ok := cv.(*ssa.BinOp)
+			if !ok {
+				continue
+			}
+			var e ssa.Value
+			switch {
+			case isLenMap(bo.X):
+				e = bo.Y
+			case isLenMap(bo.Y):
+				e = bo.X
+			default:
+				continue
+			}
+			// which edge rejects?
+			rejT := leadsToErrorReturn(b.Succs[0], 0) || (blockIf(b.Succs[0]) == nil && leadsToErrorReturn(b.Succs[0], 1))
+			rejF := leadsToErrorReturn(b.Succs[1], 0)
+			if rejT == rejF {
+				// `a || b` chains: the true edge goes to the shared error block
+				rejT = leadsToErrorReturn(b.Succs[0], 2)
+				rejF = false
+			}
+			if !rejT && !rejF {
+				continue
+			}
+			isE := func(v ssa.Value) bool { return stripConv(v) == stripConv(e) }
+			rel := relOn(ifi.Cond, !rejT, isLenMap, isE) // relation on the accepting edge
+			key := fn + "|" + p.descr(e, 6)
+			want, known := guardTable[key]
+			if !known {
+				r.note(rule+": unclassified mapping-length guard in %s: len(mapping) %s %s at %s", fn, rel, p.descr(e, 6), p.ipos(ifi))
+				continue
+			}
+			matched++
+			r.ob(rule, fn+": length guard against "+p.descr(e, 6)+" accepts exactly len(mapping) "+want+" it", p.ipos(ifi), rel == want, true,
+				"found len(mapping) %s E on the accepting edge; a one-sided change of strictness makes one end reject (or over-accept) layouts the other end produces, e.g. an exact-fit mapping", rel)
+		}
+	}
+	r.count(rule, "classified mapping-length guards", matched, floor)
 }
